@@ -54,7 +54,7 @@ def tree_hash():
         if os.path.exists(p):
             with open(p, "rb") as f:
                 extra += hashlib.sha256(f.read()).digest()
-    return _sha(input_files(), extra + REPO.encode() + b"prefixes:v2")
+    return _sha(input_files(), extra + REPO.encode() + b"prefixes:v3")
 
 
 def unity_excludes():
@@ -135,7 +135,7 @@ def tus(d):
 def _run_one(args):
     name, main, out, fl = args
     t0 = time.time()
-    prefixes = ",".join([os.path.join(REPO, "source"), os.path.join(REPO, "include/world_builder"), os.path.join(REPO, "include/vtu11")])
+    prefixes = ",".join([os.path.join(REPO, "source"), os.path.join(REPO, "include/world_builder"), os.path.join(REPO, "include/vtu11"), os.path.join(REPO, "include/glm")])
     cmd = [WBAST, out, prefixes, main, "--"] + fl
     p = subprocess.run(cmd, stdout=subprocess.PIPE, stderr=subprocess.PIPE, text=True)
     return name, p.returncode, p.stderr[-4000:], time.time() - t0
